@@ -224,8 +224,8 @@ type execOpts struct {
 
 type execStats struct {
 	cellsCompared, shows, syncs, resizes, controls, unknownControls, textRunes int64
-	unknown                                                                  map[string]int
-	hyperlinkLeftOpen                                                        int64
+	unknown                                                                    map[string]int
+	hyperlinkLeftOpen                                                          int64
 }
 
 // execHistory runs one draw history on a fresh real screen over the fake tty
@@ -285,8 +285,8 @@ func execHistory(se *session, w, h int, ops []shadow.Op, eo execOpts) *viol {
 	var prev []shadow.Disp
 	unlocked := map[int]bool{}
 	touched := map[int]bool{}
-	wideSince := map[int]bool{}    // cells that were wide at the previous Show or at any time since
-	defHist := []shadow.Spec{{}}   // default styles since the last full redraw
+	wideSince := map[int]bool{}  // cells that were wide at the previous Show or at any time since
+	defHist := []shadow.Spec{{}} // default styles since the last full redraw
 	touch := func(x, y int, r rune, comb []rune, sp shadow.Spec) {
 		i := y*m.W + x
 		c := m.C[i]
